@@ -113,8 +113,10 @@ def imsg(rng):
 
 RER = [('sig', 'v_rerand')]
 # negating every component is the re-randomisation with t = -1: a valid signature by definition
-NEG2 = (('a:v_neg', 'b:v_neg'),)
-NEG3 = (('a:v_neg', 'b:v_neg', 'c:v_neg'),)
+# (the same holds for t = 2: every component doubled)
+NEG2 = (('a:v_neg', 'b:v_neg'), ('a:v_dbl', 'b:v_dbl'))
+NEG3 = (('a:v_neg', 'b:v_neg', 'c:v_neg'), ('a:v_dbl', 'b:v_dbl', 'c:v_dbl'))
+NEG5 = (('A:v_neg', 'B:v_neg', 'a:v_neg', 'b:v_neg', 'c:v_neg'), ('A:v_dbl', 'B:v_dbl', 'a:v_dbl', 'b:v_dbl', 'c:v_dbl'))
 
 SCHEMES.update({
     'bbs': Spec('C05', 4, dict(pk='g2', z='gt', sig='g1', msg='bytes'), sig_oracle(), pc=True,
@@ -125,7 +127,7 @@ SCHEMES.update({
                 sig_oracle(int_msg=True, ok_malleations=NEG3), pc=True,
                 opts=imsg, extra_faults=RER),
     'cli': Spec('C05', 4, dict(x='g2', y='g2', z='g2', a='g1', A='g1', b='g1', B='g1', c='g1', r='bn', msg='bytes'),
-                sig_oracle(int_msg=True, modn=('r',)), pc=True, opts=imsg),
+                sig_oracle(int_msg=True, modn=('r',), ok_malleations=NEG5), pc=True, opts=imsg),
     'clb': Spec('C05', 4, dict(x='g2', y='g2', a='g1', b='g1', c='g1', msg='bytes'),
                 sig_oracle(int_msg=True, blocks=True), pc=True, opts=lopt,
                 extra_faults=[('z0', 'v_dbl'), ('A0', 'v_rand'), ('B0', 'flip'), ('z0', 'flip'), ('A1', 'v_neg'), ('B1', 'v_dbl'),
